@@ -2,14 +2,19 @@ package checks
 
 import (
 	"bytes"
+	"context"
 	"fmt"
+	"regexp"
+	"sort"
 	"strings"
 	"sync"
 	"time"
 
 	"github.com/ichiban/prolog"
+	"github.com/ichiban/prolog/engine"
 
 	"verif/h"
+	"verif/ref"
 )
 
 // Free-running pass for the race detector (the binary is built with -race): the same kinds of
@@ -70,7 +75,332 @@ func c14RaceBody(id, round int, out *bytes.Buffer) error {
 	return nil
 }
 
+// ---- goal matrix shared by the retained-results family of C14 and the race pass ---------------
+
+var c14Shapes = []string{"V", "a", "1", "9223372036854775807", "f(W)", "[a, b]", "\"ab\"", "user_output"}
+
+// c14GoalMatrix lists, per registered procedure (halt excepted), all tuples of argument shapes.
+func c14GoalMatrix() (goals []string, procOf []int) {
+	for pi, pr := range c05Procedures() {
+		if pr.Name == "halt" {
+			continue
+		}
+		tuple := c14Shapes
+		switch {
+		case pr.Arity >= 6:
+			tuple = c14Shapes[:2]
+		case pr.Arity >= 4:
+			tuple = c14Shapes[:4]
+		}
+		seqs(pr.Arity, len(tuple), func(idx []int) bool {
+			goal := ref.QuoteAtom(pr.Name)
+			if pr.Arity > 0 {
+				args := make([]string, len(idx))
+				for k, i := range idx {
+					args[k] = tuple[i]
+					if args[k] == "V" {
+						args[k] = fmt.Sprintf("V%d", k)
+					}
+				}
+				goal += "(" + strings.Join(args, ", ") + ")"
+			}
+			goals = append(goals, goal+" .")
+			procOf = append(procOf, pi)
+			return true
+		})
+	}
+	return
+}
+
+// c14Kept is what the caller of one goal keeps: the error value and the raw first answer.
+type c14Kept struct {
+	err  error
+	caps map[string]h.Cap
+}
+
+func c14RunKeep(p *prolog.Interpreter, goal string) (k c14Kept) {
+	defer func() {
+		if r := recover(); r != nil {
+			k.err = fmt.Errorf("go panic: %v", r)
+		}
+	}()
+	ctx, cancel := context.WithTimeout(context.Background(), 5*time.Second)
+	defer cancel()
+	sols, err := p.QueryContext(ctx, goal)
+	if err != nil {
+		return c14Kept{err: err}
+	}
+	if sols.Next() {
+		k.caps = map[string]h.Cap{}
+		_ = sols.Scan(k.caps)
+		sols.Next()
+	}
+	k.err = sols.Err()
+	sols.Close()
+	return k
+}
+
+func (k c14Kept) render() string {
+	var sb strings.Builder
+	if k.err != nil {
+		sb.WriteString("error: " + k.err.Error() + " / " + h.ErrTerm(k.err))
+	}
+	if k.caps != nil {
+		names := make([]string, 0, len(k.caps))
+		for n := range k.caps {
+			names = append(names, n)
+		}
+		sort.Strings(names)
+		cv := h.NewConv()
+		nm := ref.NewNamer()
+		for _, n := range names {
+			c := k.caps[n]
+			sb.WriteString(" " + n + "=" + ref.Canon(cv.Term(c.T, c.Env), nm))
+		}
+	}
+	return sb.String()
+}
+
+// touch reads everything the caller was handed using the implementation's own accessors only (the
+// reference-term converter has a process-wide counter of its own and must stay out of the race pass).
+func (k c14Kept) touch() int {
+	n := 0
+	if k.err != nil {
+		n += len(k.err.Error())
+	}
+	var walk func(t engine.Term, env *engine.Env, depth int)
+	walk = func(t engine.Term, env *engine.Env, depth int) {
+		n++
+		if depth > 1000 {
+			return
+		}
+		if c, ok := env.Resolve(t).(engine.Compound); ok {
+			n += len(c.Functor().String())
+			for i := 0; i < c.Arity(); i++ {
+				walk(c.Arg(i), env, depth+1)
+			}
+		}
+	}
+	for _, c := range k.caps {
+		walk(c.T, c.Env, 0)
+	}
+	return n
+}
+
+var c14AddrRe = regexp.MustCompile(`_[0-9]+|0x[0-9a-f]+|_G[0-9]+`)
+
+// c14Retained: interpreter A runs every goal of the matrix and its caller keeps every error value and
+// first answer; then interpreter B runs the same goals; nothing A's caller holds may have changed, and
+// B's errors are those of A (each interpreter answers as it does alone).
+func c14Retained(w *h.W) {
+	goals, procOf := c14GoalMatrix()
+	nProc := 0
+	for _, pi := range procOf {
+		if pi+1 > nProc {
+			nProc = pi + 1
+		}
+	}
+	type held struct {
+		kept c14Kept
+		r1   string
+		goal string
+	}
+	var all []held
+	defer func() {
+		// finally a third interpreter runs the WHOLE matrix (all procedures, not only this worker's
+		// share) and everything this worker's callers still hold is rendered once more
+		if len(all) == 0 || w.Expired() {
+			return
+		}
+		w.GuardFor(map[string]interface{}{"kind": "retained", "phase": "whole matrix"}, 10*time.Minute)
+		var c *prolog.Interpreter
+		for j, g := range goals {
+			if j%400 == 0 {
+				c = prolog.New(strings.NewReader("foo. bar(X). \"text\". 12"), &bytes.Buffer{})
+			}
+			c14RunKeep(c, g)
+		}
+		w.Unguard()
+		w.Eval(len(goals))
+		w.Transitions(len(goals))
+		for _, hd := range all {
+			if r3 := hd.kept.render(); r3 != hd.r1 {
+				w.Outcome("retained:changed")
+				w.Violation("retained: a result held by the caller of one interpreter changed when another interpreter ran the goal matrix",
+					map[string]interface{}{"kind": "retained-all", "goal": hd.goal}, hd.r1, r3, 1)
+				return
+			}
+		}
+		w.Outcome("retained:whole matrix")
+	}()
+	// a worker takes whole procedures; the two interpreters live for one procedure
+	for pi := 0; pi < nProc; pi++ {
+		if !w.Mine() {
+			continue
+		}
+		if w.Expired() {
+			return
+		}
+		var gs []string
+		for i, g := range goals {
+			if procOf[i] == pi {
+				gs = append(gs, g)
+			}
+		}
+		if len(gs) == 0 {
+			continue
+		}
+		w.GuardFor(map[string]interface{}{"kind": "retained", "first_goal": gs[0]}, 10*time.Minute)
+		newI := func() *prolog.Interpreter { return prolog.New(strings.NewReader("foo. bar(X). \"text\". 12"), &bytes.Buffer{}) }
+		a, b := newI(), newI()
+		keptA := make([]c14Kept, len(gs))
+		r1 := make([]string, len(gs))
+		for i, g := range gs {
+			keptA[i] = c14RunKeep(a, g)
+		}
+		for i := range gs {
+			r1[i] = keptA[i].render()
+		}
+		keptB := make([]c14Kept, len(gs))
+		for i, g := range gs {
+			keptB[i] = c14RunKeep(b, g)
+		}
+		w.Unguard()
+		for i, g := range gs {
+			if keptA[i].err != nil || keptA[i].caps != nil {
+				all = append(all, held{keptA[i], r1[i], g})
+			}
+		}
+		for i, g := range gs {
+			w.Eval(2)
+			w.Transitions(2)
+			r2 := keptA[i].render()
+			c := map[string]interface{}{"kind": "retained", "goal": g, "procedure_goals": gs[:i+1]}
+			if r2 != r1[i] {
+				w.Outcome("retained:changed")
+				w.Violation("retained: a result held by the caller of one interpreter changed when another interpreter ran the same goals", c, r1[i], r2, i)
+				break
+			}
+			ea, eb := "", ""
+			if keptA[i].err != nil {
+				ea = c14AddrRe.ReplaceAllString(keptA[i].err.Error(), "_")
+			}
+			if keptB[i].err != nil {
+				eb = c14AddrRe.ReplaceAllString(keptB[i].err.Error(), "_")
+			}
+			if ea != eb {
+				w.Outcome("retained:error differs")
+				w.Violation("retained: the second interpreter reports another error than the first for the same goals", c, ea, eb, i)
+				break
+			}
+			if ea != "" {
+				w.Outcome("retained:error kept")
+			} else if keptA[i].caps != nil {
+				w.Outcome("retained:answer kept")
+			} else {
+				w.Outcome("retained:failure")
+			}
+		}
+		w.States(1)
+		w.Traces(1)
+		w.Nontrivial("retained:" + gs[0])
+	}
+}
+
+// c14RetainedReplay re-runs one procedure's goals up to the failing one.
+func c14RetainedReplay(gs []string) (string, string, bool) {
+	newI := func() *prolog.Interpreter { return prolog.New(strings.NewReader("foo. bar(X). \"text\". 12"), &bytes.Buffer{}) }
+	a, b := newI(), newI()
+	keptA := make([]c14Kept, len(gs))
+	r1 := make([]string, len(gs))
+	for i, g := range gs {
+		keptA[i] = c14RunKeep(a, g)
+	}
+	for i := range gs {
+		r1[i] = keptA[i].render()
+	}
+	keptB := make([]c14Kept, len(gs))
+	for i, g := range gs {
+		keptB[i] = c14RunKeep(b, g)
+	}
+	for i := range gs {
+		if r2 := keptA[i].render(); r2 != r1[i] {
+			return r1[i], r2, false
+		}
+		ea, eb := "", ""
+		if keptA[i].err != nil {
+			ea = c14AddrRe.ReplaceAllString(keptA[i].err.Error(), "_")
+		}
+		if keptB[i].err != nil {
+			eb = c14AddrRe.ReplaceAllString(keptB[i].err.Error(), "_")
+		}
+		if ea != eb {
+			return ea, eb, false
+		}
+	}
+	return "results kept by A's caller unchanged; same errors in B", "as expected", true
+}
+
+// c14RetainedAllReplay: A runs one goal, another interpreter runs the whole matrix.
+func c14RetainedAllReplay(goal string) (string, string, bool) {
+	a := prolog.New(strings.NewReader("foo. bar(X). \"text\". 12"), &bytes.Buffer{})
+	k := c14RunKeep(a, goal)
+	r1 := k.render()
+	goals, _ := c14GoalMatrix()
+	var c *prolog.Interpreter
+	for j, g := range goals {
+		if j%400 == 0 {
+			c = prolog.New(strings.NewReader("foo. bar(X). \"text\". 12"), &bytes.Buffer{})
+		}
+		c14RunKeep(c, g)
+	}
+	if r3 := k.render(); r3 != r1 {
+		return r1, r3, false
+	}
+	return r1, "unchanged", true
+}
+
+// c14RaceMatrix: 8 interpreters run the goals of the matrix at the same time on real goroutines.
+func c14RaceMatrix(w *h.W) {
+	goals, procOf := c14GoalMatrix()
+	var mine []string
+	for i, g := range goals {
+		if procOf[i]%2 == w.Shard%2 {
+			mine = append(mine, g)
+		}
+	}
+	n := 8
+	var wg sync.WaitGroup
+	for i := 0; i < n; i++ {
+		wg.Add(1)
+		go func(i int) {
+			defer wg.Done()
+			p := prolog.New(strings.NewReader("foo. bar(X). \"text\". 12"), &bytes.Buffer{})
+			var kept []c14Kept
+			for j, g := range mine {
+				if j%400 == 0 {
+					p = prolog.New(strings.NewReader("foo. bar(X). \"text\". 12"), &bytes.Buffer{})
+				}
+				kept = append(kept, c14RunKeep(p, g))
+				if len(kept) > 50 {
+					// the caller reads what it was handed while the other interpreters keep running
+					_ = kept[0].touch()
+					kept = kept[1:]
+				}
+			}
+		}(i)
+	}
+	wg.Wait()
+	w.Eval(n * len(mine))
+	w.Transitions(n * len(mine))
+	w.States(1)
+	w.Traces(1)
+	w.Nontrivial(fmt.Sprint("matrix", w.Shard))
+	w.Outcome("matrix-round")
+}
+
 func c14RaceWork(w *h.W) {
+	c14RaceMatrix(w)
 	rounds := w.Pick(40, 400)
 	n := 8
 	for r := 0; r < rounds; r++ {
@@ -139,7 +469,7 @@ func init() {
 	h.Register(&h.Check{
 		ID:     "C14race",
 		Hidden: true,
-		Rule:   "free-running -race pass: rounds of 8 interpreters created, loaded, queried (atom creation with colliding names, variable creation, database updates, operators, flags, I/O, early Close) concurrently on real goroutines",
+		Rule:   "free-running -race pass: rounds of 8 interpreters created, loaded, queried (atom creation with colliding names, variable creation, database updates, operators, flags, I/O, early Close) concurrently on real goroutines; one round in which 8 interpreters run the whole goal matrix (every registered procedure x argument-shape tuples) at the same time while their callers read the results they were handed",
 		Explanation: "dynamic analysis (Go race detector) on free-running executions; complements the controlled exploration",
 		Work:   c14RaceWork,
 		Procs:  "8",
